@@ -240,9 +240,39 @@ func c14Gen(r *RNG, id string) *Case {
 	for _, g := range genes {
 		rows = append(rows, gffRowsOf(g)...)
 	}
-	if r.Bool() { // GFF files are commonly sorted by start: the rows of a joined gene are then not adjacent
+	switch r.Intn(4) {
+	case 0, 1: // GFF files are commonly sorted by start: the rows of a joined gene are then not adjacent
 		rows = sortRowsByStart(rows)
 		c.Tag("rows-sorted-by-start")
+	case 2:
+		// the rows of every feature in the order of transcription (as NCBI writes them): descending on the minus strand
+		var out []gffRow
+		for _, g := range genes {
+			gr := gffRowsOf(g)
+			if g.strand < 0 {
+				for i, j := 0, len(gr)-1; i < j; i, j = i+1, j-1 {
+					gr[i], gr[j] = gr[j], gr[i]
+				}
+				if len(gr) > 1 {
+					c.Tag("minus-strand-rows-in-transcription-order")
+				}
+			}
+			out = append(out, gr...)
+		}
+		rows = out
+	default:
+		// GFF3 fixes no order at all: every feature's rows shuffled among themselves
+		var out []gffRow
+		for _, g := range genes {
+			gr := gffRowsOf(g)
+			for i := len(gr) - 1; i > 0; i-- {
+				j := r.Intn(i + 1)
+				gr[i], gr[j] = gr[j], gr[i]
+			}
+			out = append(out, gr...)
+		}
+		rows = out
+		c.Tag("feature-rows-shuffled")
 	}
 	gffTxt, gffProto := renderGFF(rows, genome, true, r.Bool(), refName)
 	annMode := r.Chance(1, 4) // no --reference: the reference comes from the annotation (ORIGIN / ##FASTA)
